@@ -3,12 +3,12 @@
  * @tier quick
  * @functions COVER_computeEpochs
  * @bounds FULL 32-bit domain of every argument the trainers can pass: dictionary capacity any U32, number of d-mers any value >= 1 (what COVER_ctx_init / FASTCOVER_ctx_init guarantee), segment size k any value >= 1 (COVER_checkParameters), passes = 4 (the only value used by COVER_buildDictionary / FASTCOVER_buildDictionary)
- * @bounds decided: no division by zero, at least one epoch, the epochs tile at most the d-mers that exist (size * num <= nbDmers without 32-bit wrap, so every epoch range the segment selector is given lies inside the sample data), epochs are never empty when k * 10 does not wrap in 32 bits (k <= 429496729; the wrapping region gave no verdict and is outside); decided on cvc5 with the bit-vector-to-integer translation (three 32-bit divisions: SAT back ends and plain cvc5/z3 give no verdict in 10 min)
+ * @bounds decided: no division by zero, at least one epoch, the epochs tile at most the d-mers that exist (size * num <= nbDmers without 32-bit wrap, so every epoch range the segment selector is given lies inside the sample data), epochs are never empty (also where k * 10 wraps in 32 bits); decided on cvc5 with the bit-vector-to-integer translation (three 32-bit divisions: SAT back ends and plain cvc5/z3 give no verdict in 10 min)
  * @assume none
  * @outside segment selection inside an epoch (COVER_selectSegment / FASTCOVER_selectSegment); NARROW CLAIM as for all of C18
  * @prep extract lib/dictBuilder/cover.c COVER_computeEpochs epochs.inc
  * @link lib/common/error_private.c
- * @backend z3
+ * @backend cvc5int
  * @mem native
  * @cbmc --unwind 2
  * @timeout 200
@@ -34,7 +34,7 @@ void harness(void)
     e = COVER_computeEpochs(maxDictSize, nbDmers, k, 4);
     VCHECKM(e.num >= 1, "at least one epoch");
     VCHECKM((unsigned long long)e.num * e.size <= nbDmers, "the epochs tile at most the d-mers that exist (no 32-bit wrap): every epoch lies inside the samples");
-    if (k <= 0xFFFFFFFFu / 10) VCHECKM(e.size >= 1, "epochs are non-empty");
+    VCHECKM(e.size >= 1, "epochs are non-empty");
     VWITNESS(e.num > 1 && e.size >= k * 10);
     VWITNESS(e.size == nbDmers && e.num == 1);
 }
